@@ -42,8 +42,21 @@ class C06:
         self.ctx = ctx
         self.file = ctx.index.module(AFF).relpath
 
-    def type_set(self, name) -> Optional[set]:
+    def type_set(self, name, _depth=0) -> Optional[set]:
         m, node = self.ctx.index.need_assign(AFF, name)
+        return self._type_set_of(m, node, _depth)
+
+    def _type_set_of(self, m, node, _depth=0) -> Optional[set]:
+        if isinstance(node, ast.BinOp) and isinstance(node.op, (ast.BitOr, ast.Sub, ast.BitAnd)) and _depth < 4:
+            a, b = self._type_set_of(m, node.left, _depth + 1), self._type_set_of(m, node.right, _depth + 1)
+            if a is None or b is None:
+                return None
+            return a | b if isinstance(node.op, ast.BitOr) else (a - b if isinstance(node.op, ast.Sub) else a & b)
+        if isinstance(node, ast.Name) and _depth < 4:
+            try:
+                return self.type_set(node.id, _depth + 1)
+            except AnalysisError:
+                return None
         if not isinstance(node, (ast.Set, ast.List, ast.Tuple)) and not (isinstance(node, ast.Call) and ast.unparse(node.func) in ("set", "frozenset")):
             return None
         elts = node.elts if not isinstance(node, ast.Call) else (node.args[0].elts if node.args and hasattr(node.args[0], "elts") else [])
@@ -68,9 +81,7 @@ class C06:
             try:
                 got = self.type_set(name)
             except AnalysisError:
-                if name.startswith("BUFFER"):
-                    continue  # the table is gone: the per-type evaluation of _prepare_geometry below decides which types are buffered
-                raise
+                continue  # the table is gone: the per-type evaluation of _prepare_geometry / the branch rule of compute_affinity decide
             m, node = ctx.index.need_assign(AFF, name)
             if got is None:
                 ctx.undec("R06.2", f"{self.file}:{node.lineno} {name}", "not a literal set of geometry types")
@@ -96,7 +107,12 @@ class C06:
         ctx = self.ctx
         proven = ()
         for fname in ("compute_affinity_in_time", "compute_affinity"):
-            s = ctx.summ.of_func(AFF, fname)
+            try:
+                s = ctx.summ.of_func(AFF, fname)
+            except AnalysisError:
+                if fname == "compute_affinity":
+                    raise
+                continue  # reported by the branch rule below
             a, b = ("param", s.params[0]), ("param", s.params[1])
             tmp = ("param", "__swap__")
             nc = ctx.normcalls
@@ -184,7 +200,7 @@ class C06:
                         ts_ = None
                     if ts_ is not None:
                         genv[x] = frozenset(ts_)
-        buffered, same, odd = set(), set(), []
+        buffered, same, odd, mixed = set(), set(), [], []
         for T in ALL_TYPES:
             env = dict(genv)
             env[tag] = T
@@ -195,7 +211,15 @@ class C06:
                     continue
                 outs.append((lv, peval(r.term, env), r))
             if len(outs) != 1 or not (outs[0][0][0] == "const" and outs[0][0][1]):
-                odd.append((T, "outcome not decided by the type alone"))
+                # the outcome depends on more than the type: what CAN happen to a geometry of this type?
+                kinds = {"buffer" if (o[1][0] == "call" and o[1][1] == bsym) else ("same" if o[1] == g else "other") for o in outs}
+                cond = next((o[0] for o in outs if o[0][0] != "const"), None)
+                if T not in BUFFER_TYPES and "buffer" in kinds:
+                    mixed.append((T, f"a {T} (which has an extent of its own) is buffered when `{show(cond)[:90] if cond else '?'}`: its affinities are no longer the IoU of the geometries themselves"))
+                elif T in BUFFER_TYPES and "same" in kinds:
+                    mixed.append((T, f"a {T} (no area of its own) is left unbuffered when `{show(cond)[:90] if cond else '?'}`: it has affinity 0 with everything, including itself"))
+                else:
+                    odd.append((T, "outcome not decided by the type alone"))
                 continue
             val = outs[0][1]
             if val == g:
@@ -208,7 +232,11 @@ class C06:
                     odd.append((T, f"buffered with {show(val)[:70]}"))
             else:
                 odd.append((T, f"returns {show(val)[:60]}"))
-        if odd and all(w == "outcome not decided by the type alone" for _, w in odd):
+        for T_, why_ in mixed:
+            ctx.bad("R06.2", self.file, "_prepare_geometry", f"{T_}: buffered or not depending on the coordinates", why_, ps.node.lineno)
+        if mixed:
+            pass
+        elif odd and all(w == "outcome not decided by the type alone" for _, w in odd):
             ctx.undec("R06.3", psite, f"result for {[t for t, _ in odd]} is not decided by the geometry type alone")
         elif odd:
             ctx.bad("R06.3", self.file, "_prepare_geometry", "buffer_geometry(geometry, time_buffer=time_buffer, freq_buffer=freq_buffer)",
@@ -226,7 +254,14 @@ class C06:
                         + ("; buffering a geometry that already has an extent changes its affinities" if buffered - BUFFER_TYPES else ""),
                         ps.node.lineno)
         # time branch function
-        ts = ctx.summ.of_func(AFF, "compute_affinity_in_time")
+        try:
+            ts = ctx.summ.of_func(AFF, "compute_affinity_in_time")
+        except AnalysisError:
+            ctx.bad("R06.4", self.file, "compute_affinity", "compute_affinity_in_time removed",
+                    "there is no time-only affinity any more: a geometry without frequency extent is compared as a full-band box, so a "
+                    "TimeInterval against a BoundingBox over the same time span gives area ratios (0.0008) instead of the temporal IoU (1.0)",
+                    s.node.lineno)
+            return
         a, b = ("param", ts.params[0]), ("param", ts.params[1])
         cb = ("global", f"{OPS}:compute_bounds", "func")
         B1, B2 = ("call", cb, (a,), ()), ("call", cb, (b,), ())
